@@ -55,7 +55,7 @@ def c07c(ctx, tu):
     """(min,max,count) = (0,0,0) is the only state of a forbidding expectation (no increment is reachable
     on its branch, C07.b): it is satisfied and saturated, hence silent at end of life (C04.a)."""
     try:
-        o = Oracle(members={F_MIN: 0, F_MAX: 0, F_CNT: 0})
+        o = Oracle(members=C03.members(tu, 0, 0, 0))
         vals = {}
         for name in (A["is_satisfied"], A["is_saturated"], A["is_forbidden"]):
             for fn in tu.need(name):
